@@ -24,7 +24,7 @@ def contents(big):
             ('big', bytes(rnd.getrandbits(8) for _ in range(big)))]
 
 
-NAMES = [('none', None), ('ascii', 'report.txt'), ('console', '_CONSOLE'), ('non-ascii', 'résumé-文件.txt'), ('max', 'n' * 251 + '.txt'), ('space', 'my file (1).tar.gz')]
+NAMES = [('none', None), ('bytearray-reused', None), ('ascii', 'report.txt'), ('console', '_CONSOLE'), ('non-ascii', 'résumé-文件.txt'), ('max', 'n' * 251 + '.txt'), ('space', 'my file (1).tar.gz')]
 
 
 class _Early(Exception):
@@ -131,6 +131,8 @@ class Prop(object):
                             continue
                     if fname not in (None, '_CONSOLE') and isinstance(content, str):
                         continue          # file input is bytes
+                    if nname == 'bytearray-reused' and isinstance(content, str):
+                        continue
                     r.states += 1
                     label = 'content %s, format %s, name %s, compression %s' % (cname, fmt, nname, comp)
                     tags = {'part': 'literal', 'name': nname}
@@ -149,6 +151,12 @@ class Prop(object):
                             os.utime(path, (T_FILE, T_FILE))
                             m = pgpy.PGPMessage.new(path, file=True, **kw)
                             os.unlink(path)
+                        elif nname == 'bytearray-reused':
+                            # the caller hands over a buffer and goes on using it: the message keeps what it was given
+                            buf = bytearray(content if isinstance(content, bytes) else content.encode('utf-8'))
+                            m = pgpy.PGPMessage.new(buf, **kw)
+                            buf[:] = b'the caller re-fills its buffer with the next record'
+                            del buf[7:]
                         else:
                             m = pgpy.PGPMessage.new(content, **kw)
                         r.transitions += 1
